@@ -18,11 +18,24 @@ Definition labi_host : labi := {| l_int := abi_host; l_ptr := 8 |}.
 Definition labi_lp32 : labi := {| l_int := abi_lp32; l_ptr := 4 |}.
 Definition labi_lp32_16 : labi := {| l_int := abi_lp32; l_ptr := 2 |}.
 Definition labi_wide : labi := {| l_int := abi_wide; l_ptr := 4 |}.
+Definition labi_lp32_64 : labi := {| l_int := abi_lp32; l_ptr := 8 |}.
 
 Definition round_up (x a : Z) : Z := ((x + a - 1) / a) * a.
 
 Definition ksize (a : labi) (k : ikind) : Z :=
   match sbx_equiv (l_int a) k with Some s => size s | None => size k end.
+
+(* the layout algorithm on a list of (size, alignment) pairs: each member at the next
+   multiple of its alignment; the aggregate's alignment is the largest member alignment *)
+Fixpoint layout_end (sa : list (Z * Z)) (off : Z) : Z :=
+  match sa with [] => off | (s, al) :: tl => layout_end tl (round_up off al + s) end.
+Fixpoint layout_offs (sa : list (Z * Z)) (off : Z) : list Z :=
+  match sa with
+  | [] => []
+  | (s, al) :: tl => let o := round_up off al in o :: layout_offs tl (o + s)
+  end.
+Fixpoint max_align (sa : list (Z * Z)) : Z :=
+  match sa with [] => 1 | (_, al) :: tl => Z.max al (max_align tl) end.
 
 Fixpoint alignof (a : labi) (t : cty) : Z :=
   match t with
@@ -31,8 +44,7 @@ Fixpoint alignof (a : labi) (t : cty) : Z :=
   | TDouble => 8
   | TPtr => l_ptr a
   | TArr _ e => alignof a e
-  | TStruct fs => (fix go (l : list cty) : Z :=
-                     match l with [] => 1 | f :: tl => Z.max (alignof a f) (go tl) end) fs
+  | TStruct fs => max_align (map (fun f => (0, alignof a f)) fs)
   end.
 
 Fixpoint sizeof (a : labi) (t : cty) : Z :=
@@ -43,17 +55,10 @@ Fixpoint sizeof (a : labi) (t : cty) : Z :=
   | TPtr => l_ptr a
   | TArr n e => n * sizeof a e
   | TStruct fs =>
-    round_up ((fix go (l : list cty) (off : Z) : Z :=
-                 match l with
-                 | [] => off
-                 | f :: tl => go tl (round_up off (alignof a f) + sizeof a f)
-                 end) fs 0) (alignof a (TStruct fs))
+    let sa := map (fun f => (sizeof a f, alignof a f)) fs in
+    round_up (layout_end sa 0) (max_align sa)
   end.
 
 (* offsets of the fields of a struct *)
-Fixpoint offsets_from (a : labi) (fs : list cty) (off : Z) : list Z :=
-  match fs with
-  | [] => []
-  | f :: tl => let o := round_up off (alignof a f) in o :: offsets_from a tl (o + sizeof a f)
-  end.
-Definition offsets (a : labi) (fs : list cty) : list Z := offsets_from a fs 0.
+Definition size_align (a : labi) (fs : list cty) : list (Z * Z) := map (fun f => (sizeof a f, alignof a f)) fs.
+Definition offsets (a : labi) (fs : list cty) : list Z := layout_offs (size_align a fs) 0.
